@@ -78,7 +78,9 @@ class Tree:
 
   def new_package(self, tag=''):
     import importlib
-    pk = 'vfpk%s%d' % (tag, next(_n))
+    n = next(_n)
+    # every third package has a capitalised name: such module names sort before `__gin__` and `_`-prefixed names
+    pk = '%s%s%d' % ('Vfpk' if n % 3 == 0 else 'vfpk', tag, n)
     d = os.path.join(self.root, pk)
     os.makedirs(os.path.join(d, 'sub'))
     for rel, src in (('__init__.py', ''), ('alpha.py', ALPHA), ('beta.py', BETA), ('sub/__init__.py', ''), ('sub/alpha.py', SUB_ALPHA),
